@@ -25,6 +25,16 @@ def make_genome(rng, kspec):
 	for i in range(n):
 		L = rng.choice([0, 1, k, len(pre) + k - 1, len(pre) + k, 40, 120, 300])
 		s = bytearray(dbutil.rand_dna(rng, L, rng.choice([b'ACGT', b'ACGTN', b'AT' + pre])))
+		if rng.random() < 0.25:
+			# a contig too short to hold a whole k-mer that nevertheless contains the prefix (or its reverse complement) flush with
+			# one end: it contributes nothing in either orientation
+			L = rng.randint(len(pre), len(pre) + k - 1)
+			s = bytearray(dbutil.rand_dna(rng, L, b'ACGT'))
+			unit = pre if rng.random() < 0.5 else pre.translate(bytes.maketrans(b'ACGT', b'TGCA'))[::-1]
+			if rng.random() < 0.5:
+				s[:len(unit)] = unit
+			else:
+				s[len(s) - len(unit):] = unit
 		for _ in range(rng.choice([0, 1, 3])):
 			unit = pre + dbutil.rand_dna(rng, k)
 			if len(unit) <= len(s):
